@@ -40,7 +40,7 @@ def gen_base(rng, tier, index):
     if index == 12 or (tier == "thorough" and index % 40 == 12):
         # an input that pauses for seconds (longer than any plausible idle timeout of a worker), workers started through a
         # fork server or spawned (their OS parent is not the process that created them)
-        gap = 3.6 if tier == "quick" else rng.choice([3.6, 6.5, 11.0])
+        gap = 5.0 if tier == "quick" else rng.choice([5.0, 6.5, 11.0])     # (workers started through a fork server need a second or so before they are idle)
         return {"pool": "factory" if index % 80 >= 40 else "functor", "workers": 2, "wq": 1.0, "rq": None, "quota": 2 if index % 80 >= 40 else None,
                 "no_sweep": True, "limit_factor": 3, "start": "forkserver" if index % 3 == 0 else "spawn",
                 "calls": [{"ordered": index % 2 == 0, "n": 4, "chunk": 1, "form": "slow", "slow": {"before": {"2": gap}, "stop": gap}}]}
@@ -84,6 +84,11 @@ def gen_base(rng, tier, index):
         # "everything in one chunk" spelled as a huge chunk size (sys.maxsize, 2**100, infinity)
         call.update(chunk=n + 5, chunk_special=["maxsize", "huge", "inf"][(index // 8) % 3])
         call.pop("durations", None)
+    if index % 16 == 1:
+        # a two-stage pipeline: another pool's ordered imap is the input of this call (two calls alive at once)
+        call = {"ordered": True, "n": 14 + index % 5, "chunk": 2, "form": "list", "salt": 1,
+                "durations": {"mode": "alternate", "t": 0.03, "chunk": 0, "phase": index % 2, "nchunks": 8}}
+        case.update(calls=[call], nested_pool=True, workers=max(2, case["workers"]), pool="functor")
     if index % 16 == 10:
         # more workers than chunks with a chunk size above one (this base runs in a shard that turns the library's own warnings
         # into errors)
